@@ -38,7 +38,9 @@ def _case(draw):
                    "decoy_unit": draw(st.one_of(st.none(), st.sampled_from(DIST)))})
     beyond = R * (1 + draw(st.floats(0.01, 1.0))) + 10.0
     return {"shot": spec, "R": R, "zero_ft": zero_ft, "step": R / n, "queries": qs, "beyond_ft": beyond,
-            "extra_time": draw(st.sampled_from([0.0, 0.0, 0.1]))}
+            "extra_time": draw(st.sampled_from([0.0, 0.0, 0.1])),
+            # the request itself in a generated unit (metric steps accumulate a few ulp), and a query at exactly that range
+            "fire_unit": draw(st.sampled_from(["Foot", "Meter", "Meter", "Yard", "Centimeter", "Kilometer"])), "n": n}
 
 
 def _q(ft, unit):
@@ -57,8 +59,14 @@ def check(case):
         calc.set_weapon_zero(sh, D.Foot(case["zero_ft"]))
     except (pb.ZeroFindingError, pb.RangeError):
         r.label("zero-failed")
+    fu = case.get("fire_unit", "Foot")
+    rng_val = round(ref.convert(case["R"], "Foot", fu), 1 if fu in ("Meter", "Yard", "Foot") else 4)
+    n_steps = case.get("n", 20)
     try:
-        hit = calc.fire(sh, D.Foot(case["R"]), D.Foot(case["step"]), extra_data=True, time_step=case["extra_time"])
+        if fu == "Foot" and "fire_unit" not in case:
+            hit = calc.fire(sh, D.Foot(case["R"]), D.Foot(case["step"]), extra_data=True, time_step=case["extra_time"])
+        else:
+            hit = calc.fire(sh, Unit[fu](rng_val), Unit[fu](rng_val / n_steps), extra_data=True, time_step=case["extra_time"])
     except pb.RangeError as e:
         hit = pb.HitResult(sh, e.incomplete_trajectory, True)
         r.label("range-error")
@@ -129,6 +137,24 @@ def check(case):
             r.label("target:rising" if ia < apex else "target:falling")
         if r.violations:
             break
+    # at exactly the fired range, in the request's own unit: the first row at or beyond it, or an error if the last row
+    # falls short of it (by however little)
+    if "fire_unit" in case and not r.violations:
+        req = Unit[fu](rng_val)
+        exp_a = next((i for i in range(n) if rows[i].distance.raw_value >= req.raw_value), -1)
+        try:
+            ds = hit.danger_space(Unit[fu](rng_val), D.Inch(20.0))
+            ia, ib, ie = idx.get(id(ds.at_range)), idx.get(id(ds.begin)), idx.get(id(ds.end))
+            if exp_a < 0:
+                r.bad("C16:beyond-trajectory-accepted", f"request {rng_val!r} {fu}: the last row is at {rows[-1].distance.raw_value!r} in < {req.raw_value!r} in, "
+                      f"yet a danger space was returned (target row {ia}, begin {ib}, end {ie})")
+            elif ia != exp_a or ib is None or ie is None or not (ib <= ia <= ie):
+                r.bad("C16:bounds-do-not-bracket-target", f"request at the fired range {rng_val!r} {fu}: target row {ia} (expected {exp_a}), begin {ib}, end {ie}")
+            r.label("at-fired-range:returned")
+        except ArithmeticError:
+            if exp_a >= 0:
+                r.bad("C16:target-row", f"request at the fired range {rng_val!r} {fu} raised although row {exp_a} reaches it")
+            r.label("at-fired-range:raised")
     # beyond the computed trajectory
     for u in (None, "Meter"):
         try:
